@@ -25,6 +25,7 @@ class BuildResult:
         self.returncode = None  # ReturnCode or None
         self.exception = None  # exception escaping serve()
         self.hang = None  # SimHang
+        self.aborted = None  # reason, when a monitor stopped the scenario (see World.request_abort)
         self.ticks = 0
         self.vtime = 0.0
         self.log_start = 0
@@ -39,7 +40,7 @@ class BuildResult:
 
     @property
     def ok(self):
-        return self.exception is None and self.hang is None and self.harness_error is None
+        return self.exception is None and self.hang is None and self.harness_error is None and self.aborted is None
 
 
 class ErrorCapture(logging.Handler):
@@ -260,6 +261,8 @@ class World:
                 res.returncode = vloop.run(main_factory(self), loop)
             except vloop.SimHang as exc:
                 res.hang = exc
+            except vloop.SimAbort as exc:
+                res.aborted = str(exc)
             except vloop.SeamMissed as exc:
                 res.harness_error = exc
             except seams.CrashNow as exc:
@@ -291,6 +294,16 @@ class World:
         for m in self.monitors:
             m.on_build_end(self, res)
         return res
+
+    def request_abort(self, reason):
+        """Stop this world at the next tick.
+
+        For states after which the real code does not terminate in real time (a committed
+        dependency cycle makes the scheduler's recursive queries spin): the violation is
+        already recorded, the rest of the run could only end in the worker watchdog.
+        """
+        if self.loop is not None and self.loop.abort_reason is None:
+            self.loop.abort_reason = reason
 
     def _tick_hook(self, loop):
         if self.crash_hook is not None:
